@@ -86,14 +86,16 @@ class HyteraIPSC:
         reserved_7a = ipsc[9:16]
         timeslot = Timeslot(int.from_bytes(ipsc[16:18], "little"))
         slot_type = SlotType(int.from_bytes(ipsc[18:20], "little"))
-        color_code = int.from_bytes(ipsc[20:22], "little")
+        # colour code is single nibble, repeated four times
+        color_code = int.from_bytes(ipsc[20:22], "little") & 0x0F
         frame_type = FrameType(int.from_bytes(ipsc[22:24], "little"))
         reserved_2a = ipsc[24:26]
         payload = byteswap_bytes(ipsc[26:60])[:-1]
         reserved_2b = ipsc[60:62]
         call_type = CallType(int.from_bytes(ipsc[62:63], "little"))
-        destination_radio_id = int.from_bytes(ipsc[63:67], "little")
-        source_radio_id = int.from_bytes(ipsc[67:71], "little")
+        # radio ids are 24-bit, carried in the upper three bytes of little-endian 32-bit field
+        destination_radio_id = int.from_bytes(ipsc[63:67], "little") >> 8
+        source_radio_id = int.from_bytes(ipsc[67:71], "little") >> 8
         reserved_1 = ipsc[71:72]
         ipsc = HyteraIPSC(
             sequence_number=sequence_number,
@@ -141,7 +143,11 @@ class HyteraIPSC:
         _ipsc.reserved_7a = ipsc.reserved_7a
         _ipsc.reserved_2a = ipsc.reserved_2a
         _ipsc.reserved_2b = ipsc.reserved_2b
-        _ipsc.reserved_1 = ipsc.reserved_1b
+        _ipsc.reserved_1 = (
+            bytes([ipsc.reserved_1b])
+            if isinstance(ipsc.reserved_1b, int)
+            else ipsc.reserved_1b
+        )
 
         return _ipsc
 
@@ -159,13 +165,14 @@ class HyteraIPSC:
             + self.frame_type.value.to_bytes(2, byteorder="little")
             + self.reserved_2a[0:2]
             + byteswap_bytes(
-                self.payload
+                # 33 bytes of burst + 1 byte of padding
+                (self.payload + b"\x00")[0:34]
                 if isinstance(self.payload, bytes)
                 else (self.payload.as_bytes() + b"\x00")
             )
             + self.reserved_2b[0:2]
             + self.call_type.value.to_bytes(1, byteorder="little")
-            + self.destination_radio_id.to_bytes(4, byteorder="little")
-            + self.source_radio_id.to_bytes(4, byteorder="little")
+            + (self.destination_radio_id << 8).to_bytes(4, byteorder="little")
+            + (self.source_radio_id << 8).to_bytes(4, byteorder="little")
             + self.reserved_1[0:1]
         )
